@@ -1,5 +1,6 @@
 """helpers shared by several property checkers."""
 import ast
+from ..model import ast_copy as _ast_copy
 
 from ..model import AnalysisError, unparse, walk_local, call_name, dotted
 from ..engines import dimgen, resolve
@@ -115,7 +116,7 @@ _TERMINATORS = (ast.Continue, ast.Break, ast.Return, ast.Raise)
 def _neg(test):
     from ..engines.norm import _not
     import copy
-    return _not(copy.deepcopy(test))
+    return _not(_ast_copy(test))
 
 
 def _fallthrough(st):
@@ -182,10 +183,10 @@ def resolve_local(fn, e, depth=3, only=None):
 
         def visit_Name(self, n):
             if isinstance(n.ctx, ast.Load) and n.id in single and self.d > 0:
-                return R(self.d - 1).visit(copy.deepcopy(single[n.id]))
+                return R(self.d - 1).visit(_ast_copy(single[n.id]))
             return n
 
-    return R(depth).visit(copy.deepcopy(e))
+    return R(depth).visit(_ast_copy(e))
 
 
 def update_of(st):
@@ -228,10 +229,10 @@ def resolve_in_block(stmt, e):
     class R(ast.NodeTransformer):
         def visit_Name(self, n):
             if isinstance(n.ctx, ast.Load) and n.id in defs:
-                return copy.deepcopy(defs[n.id])
+                return _ast_copy(defs[n.id])
             return n
 
-    return R().visit(copy.deepcopy(e))
+    return R().visit(_ast_copy(e))
 
 
 # ---------------------------------------------------------------- memoryless state setters
